@@ -116,7 +116,7 @@ PLAN = {
         "assumptions": [A_N, A_S, A_T],
         "exhaustive": False,
         "parts": [n_part("N-gate-and-register-probe", "C10", 504, 50400, selftest=42, extra_args=["--family", "probe"]),
-                  s_part("S-boolean-stubs", "C10", "x86_64_linux,aarch64_linux,arm_linux", 6000, 600000),
+                  s_part("S-boolean-stubs", "C10", "x86_64_linux,aarch64_linux,arm_linux,x86_64_windows,aarch64_windows", 6000, 600000),
                   t_part("T-forced-value-under-handover", "handover", "C10", 3000, 300000),
                   t_part("T-forced-value-under-exclusion", "excl", "C10", 3000, 300000)],
     },
@@ -125,7 +125,7 @@ PLAN = {
         "rule": "assembly caller loads 6 integer + 8 vector argument registers, 8 stack slots and the callee-saved set from seeded values, calls a redirected synthetic target (near the image: short trampoline; far: mov rax/jmp rax form) whose fake is an assembly routine recording the register file and returning seeded rax/rdx/xmm0/xmm1; plus Rust-level pairs (13 mixed arguments, [u64;8], (u64,u64), u128 returns); simulation: write-sets of the A64/ARM sequences; distinct = (mode, placement, offset) tuples, 8 register files per scenario",
         "assumptions": [A_N, A_S],
         "parts": [n_part("N-register-probe", "C13", 800, 80000, selftest=40, extra_args=["--family", "probe"]),
-                  s_part("S-write-sets", "C13", "x86_64_linux,aarch64_linux", 6000, 600000)],
+                  s_part("S-write-sets", "C13", "x86_64_linux,aarch64_linux,aarch64_macos", 6000, 600000)],
     },
     "C04": {
         "level": "exploration",
